@@ -401,14 +401,21 @@ class DavSys:
                 if coll == "cal":
                     self.tokens = []  # tokens of an earlier incarnation of the URL are nobody's business any more
         elif kind == "proppatch":
-            _, coll, pkey, value = op
+            _, coll, pkey, value = op[:4]
             target_coll = coll
             tag = PROP_TAGS[pkey]
             if value is None:
                 body = dav.proppatch_body(removes=[tag])
             else:
                 body = dav.proppatch_body(sets=[(tag, value)])
-            resp = self.req("PROPPATCH", self.url(coll), dav.XML_CT, body)
+            hdrs = dav.XML_CT
+            if len(op) > 4 and op[4]:
+                # the same document in another character encoding: named in the XML declaration and (optionally) in the
+                # charset parameter of the Content-Type
+                enc, with_param = op[4]
+                body = body.decode("utf-8").replace('encoding="utf-8"', 'encoding="%s"' % enc).encode(enc)
+                hdrs = {"Content-Type": "application/xml; charset=%s" % enc if with_param else "application/xml"}
+            resp = self.req("PROPPATCH", self.url(coll), hdrs, body)
             st = resp.status
             info["status"] = st
             ok = False
